@@ -68,7 +68,7 @@ Section Unknown.
   Lemma groomed_tag_other c rn t : (match ci_rename c with Some (wire, _) => t <> wire | None => True end) -> groomed_tag c rn t = (t, rn).
   Proof.
     unfold groomed_tag. destruct (ci_rename c) as [[wire py]|]; [|reflexivity]. intro H.
-    destruct (String.eqb_spec t wire) as [E|E]; [contradiction|]. rewrite andb_false_r. reflexivity.
+    destruct (String.eqb_spec t wire) as [E|E]; [contradiction|]. reflexivity.
   Qed.
 
   Lemma step_unknown fe c st u : unknown_for c u -> same_core (step fe c st u) st.
